@@ -49,7 +49,16 @@ class Poly(dict):
         r = Poly()
         for m1, c1 in self.items():
             for m2, c2 in o.items():
-                m = tuple(sorted(m1 + m2, key=repr))
+                syms = list(m1 + m2)
+                # 0/1 symbols are idempotent: b * b = b
+                seen, out = set(), []
+                for sy in syms:
+                    if isinstance(sy, tuple) and sy and sy[0] == "neg":
+                        if sy in seen:
+                            continue
+                        seen.add(sy)
+                    out.append(sy)
+                m = tuple(sorted(out, key=repr))
                 r[m] = r.get(m, 0) + c1 * c2
         return r.clean()
 
@@ -84,6 +93,8 @@ class Poly(dict):
                 return str(k)
             if isinstance(s, tuple) and s[0] in ("q", "fq"):
                 return "quot#%d" % (abs(hash(repr(s))) % 1000)
+            if isinstance(s, tuple) and s[0] == "call":
+                return "%s(%s)" % (s[1], ", ".join(s[2]))
             if isinstance(s, tuple) and s[0] == "opaque":
                 return "call#%s" % s[1]
             if isinstance(s, tuple) and s[0] == "neg":
@@ -110,6 +121,7 @@ class Path:
 
     def fork(self):
         p = Path(self.env)
+        p.taken = list(getattr(self, "taken", []))
         return p
 
 
@@ -118,6 +130,9 @@ class Summariser:
         self.fn = fn
         self.tu = fn.tu
         self.calls = call_summaries or {}
+        self.pure_calls = set()          # side-effect free callees: equal arguments give the same (opaque) value
+        self.maxpaths = MAXPATHS
+        self.lenient_if = False          # conditions that are not comparisons fork the summary without information
         self.names = {x["d"]: x.get("n") for x in fn.walk() if x.get("k") == "Var"}
         self.names.update({p["d"]: p["n"] for p in fn.params})
         self.fresh = 0
@@ -237,6 +252,9 @@ class Summariser:
             if inner is not None and inner.get("k") == "CallExpr" and inner.get("callee") in self.calls:
                 vals = self.calls[inner["callee"]](self, inner, path)
                 return vals[e["n"]]
+        if k == "CallExpr" and e.get("callee") and e.get("callee") in self.pure_calls:
+            from core import expr_text
+            return Poly.sym(("call", e["callee"], tuple(expr_text(strip(a)) for a in call_args(e))))
         self.fresh += 1
         return Poly.sym(("opaque", e.get("i", self.fresh)))
 
@@ -265,7 +283,7 @@ class Summariser:
             if not live:
                 break
             paths = [p for p in paths if p.done] + self.stmt(s, live)
-            if len(paths) > MAXPATHS:
+            if len(paths) > self.maxpaths:
                 raise AnalysisBroken("too many paths in %s" % self.fn.name)
         return paths
 
@@ -294,15 +312,41 @@ class Summariser:
                         if t.get("int") or t.get("ptr"):
                             p.env[v["d"]] = self.ev(ini, p)
             return paths
+        if k == "ForStmt":
+            # the one-trip `with (decls)` idiom: for (decls, *flag = (void*)1; flag; flag = 0) body
+            init, cond, inc, body = s["c"][0], s["c"][2] if len(s["c"]) > 4 else s["c"][1], s["c"][-2], s["c"][-1]
+            cv = strip(cond) if cond is not None else None
+            flag = cv.get("d") if cv is not None and cv.get("k") == "DeclRefExpr" else None
+            okshape = False
+            if flag is not None and init is not None and init.get("k") == "DeclStmt":
+                for v in kids(init):
+                    if v.get("k") == "Var" and v.get("d") == flag and kids(v) and const_of(kids(v)[0]) not in (None, 0):
+                        okshape = True
+                iz = strip(inc) if inc is not None else None
+                if not (iz is not None and iz.get("k") == "BinaryOperator" and iz.get("op") == "=" and strip(iz["c"][0]).get("d") == flag
+                        and const_of(iz["c"][1]) == 0):
+                    okshape = False
+            if not okshape:
+                raise AnalysisBroken("loop in %s is outside the summariser" % self.fn.name)
+            paths = self.stmt(init, paths)
+            return self.stmt(body, paths)
         if k == "IfStmt":
             out = []
             for p in paths:
-                c = self.ev(s["c"][0], p)          # may have side effects (assignment in the condition)
-                if not self._boolean(c):
-                    raise AnalysisBroken("if condition is not a comparison")
+                try:
+                    c = self.ev(s["c"][0], p)          # may have side effects (assignment in the condition)
+                except AnalysisBroken:
+                    if not self.lenient_if:
+                        raise
+                    c = None
+                if c is not None and not self._boolean(c):
+                    if not self.lenient_if:
+                        raise AnalysisBroken("if condition is not a comparison")
+                    c = None
                 for val, branch in ((1, s["c"][1]), (0, s["c"][2] if len(s["c"]) > 2 else None)):
                     q = p.fork()
-                    ok = self.assume(q, c, val)
+                    q.taken = list(getattr(p, "taken", [])) + [(s.get("i"), val)]
+                    ok = self.assume(q, c, val) if c is not None else True
                     if not ok:
                         continue
                     if branch is not None:
